@@ -62,29 +62,124 @@ theorem applyAll_append (v : View) (a b : List Change) : applyAll v (a ++ b) = a
 /-- what the receiver will hold once everything in flight and pending has arrived -/
 def eventual (l : Link) : View := applyAll (l.inflight.foldl applyAll l.copy) l.pending
 
-/-- **the invariant**: the owner's instances are the receiver's copy plus everything still on its way, in order -/
-def Inv (l : Link) : Prop := eventual l = l.own
+/-- **the invariant**: the owner's instances are the receiver's copy plus everything still on its way, in order; a queued
+heartbeat carries what the owner holds for that instance and no change of that instance is waiting to be flushed -/
+def Inv (l : Link) : Prop :=
+  eventual l = l.own ∧ ∀ b ∈ l.beats, l.own b.key = b.val ∧ l.pending.any (·.key == b.key) = false
+
+/-- applying changes that say what the view already holds changes nothing -/
+theorem applyAll_noop (v : View) (bs : List Change) (h : ∀ b ∈ bs, v b.key = b.val) : applyAll v bs = v := by
+  induction bs generalizing v with
+  | nil => rfl
+  | cons b bs ih =>
+    have hb := h b (by simp)
+    have hv : upd v b = v := by
+      funext k; unfold upd; split
+      · rename_i hk; rw [hk, hb]
+      · rfl
+    simp only [applyAll, List.foldl_cons] at ih ⊢
+    rw [hv]
+    exact ih v (fun c hc => h c (by simp [hc]))
+
+/-- changes of other keys do not touch a key -/
+theorem applyAll_other (v : View) (cs : List Change) (k : Key) (h : cs.any (·.key == k) = false) :
+    applyAll v cs k = v k := by
+  induction cs generalizing v with
+  | nil => rfl
+  | cons c cs ih =>
+    simp only [List.any_cons, Bool.or_eq_false_iff, beq_eq_false_iff_ne] at h
+    simp only [applyAll, List.foldl_cons] at ih ⊢
+    rw [ih (upd v c) h.2]
+    unfold upd
+    have : ¬ k = c.key := fun e => h.1 e.symm
+    simp [this]
+
+/-- the last change of a key decides that key, whatever the view was before -/
+theorem overwritten_key (cs : List Change) (v w : View) (k : Key) (h : cs.any (·.key == k) = true) :
+    applyAll v cs k = applyAll w cs k := by
+  induction cs generalizing v w with
+  | nil => simp at h
+  | cons d rest ih =>
+    simp only [applyAll, List.foldl_cons] at ih ⊢
+    by_cases hr : rest.any (·.key == k) = true
+    · exact ih (upd v d) (upd w d) hr
+    · have hr' : rest.any (·.key == k) = false := by simpa using hr
+      have hd : d.key = k := by
+        simp only [List.any_cons, Bool.or_eq_true, beq_iff_eq] at h
+        rcases h with h | h
+        · exact h
+        · exact absurd h hr
+      have e1 := applyAll_other (upd v d) rest k hr'
+      have e2 := applyAll_other (upd w d) rest k hr'
+      simp only [applyAll] at e1 e2
+      rw [e1, e2]; unfold upd; simp [hd]
 
 theorem inv_step (l : Link) (s : Step) (h : Inv l) : Inv (l.step s) := by
-  unfold Inv eventual at *
+  obtain ⟨h1, h2⟩ := h
+  unfold eventual at h1
   cases s with
   | client c =>
-    simp only [Link.step]
-    rw [applyAll_append, h]; rfl
+    refine ⟨?_, ?_⟩
+    · simp only [Link.step, eventual]
+      rw [applyAll_append, h1]; rfl
+    · intro b hb
+      simp only [Link.step, List.mem_filter, bne_iff_ne, ne_eq] at hb
+      obtain ⟨hbm, hne⟩ := hb
+      have := h2 b hbm
+      simp only [Link.step, upd, hne, if_false, List.any_append, List.any_cons, List.any_nil, Bool.or_false]
+      refine ⟨this.1, ?_⟩
+      simp [this.2]; exact fun e => hne e.symm
   | flush =>
     simp only [Link.step]
     split
-    · exact h
-    · simp only [List.foldl_append, List.foldl_cons, List.foldl_nil]
-      rw [coalescing_sound]
-      exact h
+    · exact ⟨h1, h2⟩
+    · refine ⟨?_, ?_⟩
+      · simp only [eventual, List.foldl_append, List.foldl_cons, List.foldl_nil]
+        rw [coalescing_sound]
+        exact h1
+      · intro b hb; exact ⟨(h2 b hb).1, by simp⟩
   | deliver =>
     simp only [Link.step]
     split
-    · exact h
+    · exact ⟨h1, h2⟩
     · rename_i b rest hb
-      rw [hb] at h
-      simpa using h
+      rw [hb] at h1
+      exact ⟨by simpa [eventual] using h1, h2⟩
+  | beat k =>
+    simp only [Link.step]
+    split
+    · exact ⟨h1, h2⟩
+    · rename_i v hv
+      split
+      · exact ⟨h1, h2⟩
+      · rename_i hp
+        refine ⟨h1, ?_⟩
+        intro b hb
+        simp only [List.mem_append, List.mem_filter, List.mem_singleton] at hb
+        rcases hb with hb | hb
+        · exact h2 b hb.1
+        · subst hb; exact ⟨hv, by simpa using hp⟩
+  | beatFlush =>
+    simp only [Link.step]
+    split
+    · exact ⟨h1, h2⟩
+    · refine ⟨?_, by intro b hb; simp at hb⟩
+      simp only [eventual, List.foldl_append, List.foldl_cons, List.foldl_nil]
+      -- the heartbeat batch is applied before the pending changes; it only says what the owner holds, for keys that
+      -- no pending change touches
+      rw [← h1]
+      funext k
+      by_cases hk : l.pending.any (·.key == k) = true
+      · -- a pending change of k decides k in both views
+        exact overwritten_key l.pending _ _ k hk
+      · have hk' : l.pending.any (·.key == k) = false := by simpa using hk
+        rw [applyAll_other _ _ k hk', applyAll_other _ _ k hk']
+        -- before the pending changes: the heartbeats say what that view holds for their keys
+        have hX : ∀ b ∈ l.beats, (l.inflight.foldl applyAll l.copy) b.key = b.val := by
+          intro b hb
+          have := h2 b hb
+          rw [← this.1, ← h1, applyAll_other _ _ _ this.2]
+        rw [applyAll_noop _ _ hX]
 
 theorem inv_run (ss : List Step) (l : Link) (h : Inv l) : Inv (l.run ss) := by
   induction ss generalizing l with
@@ -93,24 +188,40 @@ theorem inv_run (ss : List Step) (l : Link) (h : Inv l) : Inv (l.run ss) := by
 
 /-- **convergence at quiescence**: for every interleaving of client operations, flushes and deliveries starting from
 agreeing, quiet nodes – whenever nothing is pending and nothing is in flight, the copy equals the owner's instances -/
-theorem quiescent_copy_is_own (ss : List Step) (v : View) (hq : ((⟨v, [], [], v⟩ : Link).run ss).quiescent) :
-    ((⟨v, [], [], v⟩ : Link).run ss).copy = ((⟨v, [], [], v⟩ : Link).run ss).own := by
-  have h := inv_run ss ⟨v, [], [], v⟩ rfl
-  unfold Inv eventual at h
-  rw [hq.1, hq.2] at h
+theorem quiescent_copy_is_own (ss : List Step) (v : View) (hq : ((⟨v, [], [], v, []⟩ : Link).run ss).quiescent) :
+    ((⟨v, [], [], v, []⟩ : Link).run ss).copy = ((⟨v, [], [], v, []⟩ : Link).run ss).own := by
+  have h := (inv_run ss ⟨v, [], [], v, []⟩ ⟨rfl, by intro b hb; simp at hb⟩).1
+  unfold eventual at h
+  rw [hq.1, hq.2.1] at h
   exact h
 
 /-- every node that receives the same batches in the same order holds the same copy: two receivers of one owner
 agree at quiescence -/
 theorem receivers_agree (ss1 ss2 : List Step) (v : View)
-    (h1 : ((⟨v, [], [], v⟩ : Link).run ss1).quiescent) (h2 : ((⟨v, [], [], v⟩ : Link).run ss2).quiescent)
-    (hown : ((⟨v, [], [], v⟩ : Link).run ss1).own = ((⟨v, [], [], v⟩ : Link).run ss2).own) :
-    ((⟨v, [], [], v⟩ : Link).run ss1).copy = ((⟨v, [], [], v⟩ : Link).run ss2).copy := by
+    (h1 : ((⟨v, [], [], v, []⟩ : Link).run ss1).quiescent) (h2 : ((⟨v, [], [], v, []⟩ : Link).run ss2).quiescent)
+    (hown : ((⟨v, [], [], v, []⟩ : Link).run ss1).own = ((⟨v, [], [], v, []⟩ : Link).run ss2).own) :
+    ((⟨v, [], [], v, []⟩ : Link).run ss1).copy = ((⟨v, [], [], v, []⟩ : Link).run ss2).copy := by
   rw [quiescent_copy_is_own ss1 v h1, quiescent_copy_is_own ss2 v h2, hown]
 
 /-! ### non-vacuity -/
-example : ((⟨fun _ => none, [], [], fun _ => none⟩ : Link).run
+example : ((⟨fun _ => none, [], [], fun _ => none, []⟩ : Link).run
     [.client ⟨1, some 5⟩, .client ⟨1, none⟩, .client ⟨1, some 7⟩, .flush, .client ⟨2, some 1⟩, .deliver, .flush, .deliver]).quiescent := by
+  unfold Link.quiescent; decide
+
+
+/-- a heartbeat queued before a deregistration is discarded with it: after the heartbeat flush the receiver still has
+no such instance (the sequence of the seeded change "stale heartbeat resurrects a deregistered instance") -/
+example :
+    let l := (⟨fun _ => none, [], [], fun _ => none, []⟩ : Link).run
+      [.client ⟨1, some 5⟩, .flush, .deliver, .beat 1, .client ⟨1, none⟩, .flush, .deliver, .beatFlush, .deliver]
+    l.quiescent ∧ l.copy 1 = none ∧ l.own 1 = none := by
+  unfold Link.quiescent; decide
+
+/-- … and a heartbeat of an instance that stays registered travels as an update that changes nothing -/
+example :
+    let l := (⟨fun _ => none, [], [], fun _ => none, []⟩ : Link).run
+      [.client ⟨1, some 5⟩, .flush, .deliver, .beat 1, .beatFlush, .deliver]
+    l.quiescent ∧ l.copy 1 = some 5 := by
   unfold Link.quiescent; decide
 
 end RNacos.Props.C15
